@@ -184,7 +184,9 @@ func c16R3(p *core.Prog, r *core.Report) {
 	}
 	self := fn.Params[0].Name()
 	ex := core.NewExplorer(p, core.Hooks{
-		Track: func(x *core.X, a core.Atom) bool { return strings.Contains(core.Plain(a.String()), self+".aofFileIndex") },
+		Track: func(x *core.X, a core.Atom) bool {
+			return strings.Contains(core.Plain(a.String()), self+".aofFileIndex")
+		},
 		Instr: func(x *core.X) {
 			c, ok := x.Ins.(*ssa.Call)
 			if !ok || !x.Top() {
